@@ -7,6 +7,7 @@ M == A (interval bound first, solver otherwise, tolerance 1e-9) and answers (w, 
 matrix it cannot match is an inconclusive path (StubMiss), never a pass.
 """
 from __future__ import annotations
+import os, sys
 import numpy as np
 import z3
 from . import core, nd
@@ -121,6 +122,8 @@ def _same(M, A, tol=1e-9):
             hard.append(p)
     if not hard:
         return True
+    if os.environ.get("SYMQ_DEBUG"):
+        print("stubs._same: %d/%d entries need the solver; largest bound %s" % (len(hard), len(diffs), max((float(_poly_bound(p) or 1e99) for p in hard))), str(hard[0])[:300], file=sys.stderr)
     ctx = core.CTX
     if ctx.feas is None:
         return False
